@@ -8,3 +8,5 @@ open AC.Props.C12
 #print axioms C12_slots
 #print axioms C12_accepts_sound
 #print axioms C12_accepted_limit
+#print axioms C12_accepts_complete
+#print axioms C12_accepts_iff
